@@ -933,7 +933,11 @@ class Interp:
         if _is_stub(fn):
             # Protocol / abstract stub: behaves like an external method
             if fv.self_val is not None:
-                return self.ext_method_call(BoundExt(fv.self_val, fn.name), args, kwargs, node)
+                r = self.ext_method_call(BoundExt(fv.self_val, fn.name), args, kwargs, node)
+                ret = parse_annotation(self.prog, fn.module, getattr(fn.node, "returns", None))
+                if isinstance(r, Sym) and ret is not None:
+                    return Sym(r.k, ret, parts=r.parts)
+                return r
             return Unknown(f"stub:{fn.qualname}")
         return self.call_function(fn, fv.self_val, args, kwargs, fv.closure, fv.bound_cls, node)
 
